@@ -2189,7 +2189,11 @@ SUITES = {
 
 def generate(prop, tier, seed):
     g = Gen(seed * 1000003 + int(prop[1:]))
-    SUITES[prop](g, tier)
+    Prog.shape_rng = random.Random(seed * 7919 + int(prop[1:]))      # shapes of multi-scalar slice arguments (nil / exact / spare)
+    try:
+        SUITES[prop](g, tier)
+    finally:
+        Prog.shape_rng = None
     return [p.to_json() for p in g.progs]
 
 
